@@ -275,6 +275,21 @@ def query_jobs(tier, seed):
     return jobs
 
 
+def load_jobs(tier, seed):
+    """C19: for every reachable store of a few scenarios, the menu of structural mutations (MC_Store!LoadOps) of its JSON,
+    CSV and CBOR serialisations, loaded in a child process with an address-space limit and a timeout."""
+    quick = tier == 'quick'
+    big = dict(MaxAnns=10, MaxRes=3, MaxData=8, MaxSets=2, MaxKeys=4)
+    style = seed % 5
+    jobs = [mc_job('mc_complex_small', 'complex', maxanns=2),
+            gen_job('load_p6', 'remove', 6, depth=0 if quick else 1, style=0, reads=['loads'], **big),
+            gen_job('load_p10', 'remove', 10, depth=0, style=0, reads=['loads'], **big)]
+    if not quick:
+        jobs += [gen_job('load_p5', 'remove', 5, depth=1, style=style, reads=['loads'], **big),
+                 gen_job('load_p12', 'transpose', 12, depth=0, style=(style + 1) % 5, reads=['loads'], MaxAnns=20, MaxRes=3, MaxData=6, MaxSets=2, MaxKeys=4)]
+    return jobs
+
+
 def conc_jobs(tier, seed):
     """C20: every interleaving (at the accesses to the shared serialisation-mode cell and the changed flags) of two or three
     reader threads, for several store shapes; TLC checks SequentialResults on the repaired design, the harness replays
@@ -360,6 +375,8 @@ def plan_for(prop, tier, seed, replay_file=None):
     if prop in ('C05', 'C11', 'C15'):
         return dict(jobs=roundtrip_jobs(prop, tier, seed), rule=STORE_RULE + '; every history is extended with serialisation round trips '
                     'after which it continues on the reloaded store', assumptions=STORE_ASSUMPTIONS)
+    if prop == 'C19':
+        return dict(jobs=load_jobs(tier, seed), rule=TABLE_RULE, assumptions=STORE_ASSUMPTIONS)
     if prop == 'C20':
         return dict(jobs=conc_jobs(tier, seed), rule='TLC enumerates every interleaving of the reader threads (Gen_Sched.tla); each schedule is '
                     'replayed in real threads under the yield hook; TLC validates the recorded yield tags and outputs against '
